@@ -181,6 +181,10 @@ structure LawfulAngle2 (α P : Type) [CommRing α] [Amp α P] [Angle P] : Prop w
     Amp.cos (Amp.padd α (Amp.phalf α x) (Amp.pneg α (Amp.phalf α y)))
   sub_sin : ∀ x y : P, (Amp.sin (Angle.div (Angle.sub x y) two) : α) =
     Amp.sin (Amp.padd α (Amp.phalf α x) (Amp.pneg α (Amp.phalf α y)))
+  cos_pi_four : (Amp.cos (Angle.div Angle.pi (Angle.ofDec 4 0) : P) : α) = Amp.hsqrt2 P
+  sin_pi_four : (Amp.sin (Angle.div Angle.pi (Angle.ofDec 4 0) : P) : α) = Amp.hsqrt2 P
+  cos_npi_four : (Amp.cos (Angle.div (Angle.neg Angle.pi) (Angle.ofDec 4 0) : P) : α) = Amp.hsqrt2 P
+  sin_npi_four : (Amp.sin (Angle.div (Angle.neg Angle.pi) (Angle.ofDec 4 0) : P) : α) = -Amp.hsqrt2 P
 
 section lawful
 variable (h : LawfulAmp α P) (hh : LawfulHalf α P) (ha : LawfulAngle α P) (ha2 : LawfulAngle2 α P)
@@ -312,6 +316,99 @@ theorem crx_ok (t : P) : LibGateOK α P libTable "CRX" [t] := by
   show _ = Spec.ctrl (specMatrix (.RX t))
   rw [spec_RX h, ctrl_two]
   refine bd2_ext ?_ ?_ ?_ ?_ ?_ ?_ ?_ ?_ <;> grind
+
+omit ha in
+theorem spec_U3 (t p l : P) : (specMatrix (.U3 t p l) : LMat α) =
+    [[Amp.cos (Amp.phalf α t), -((Amp.cos l + Amp.I P * Amp.sin l) * Amp.sin (Amp.phalf α t))],
+     [(Amp.cos p + Amp.I P * Amp.sin p) * Amp.sin (Amp.phalf α t),
+      (Amp.cos (Amp.padd α p l) + Amp.I P * Amp.sin (Amp.padd α p l)) * Amp.cos (Amp.phalf α t)]] := by
+  simp [specMatrix, Spec.expi]
+
+/-- the general `U(a, b, c)` with the cosine / sine of `a/2` and the phases named -/
+theorem matU_gen (a b c : P) : (matU a b c : LMat α) =
+    [[Amp.cos (Amp.phalf α a), -(OQ2.expi c * Amp.sin (Amp.phalf α a))],
+     [OQ2.expi b * Amp.sin (Amp.phalf α a), OQ2.expi b * OQ2.expi c * Amp.cos (Amp.phalf α a)]] := by
+  simp only [matU, expi_padd h ha]
+
+include hh ha2 in
+/-- `CU3(θ, φ, λ)` is exported as `cu3(θ, φ, λ)`, whose (corrected) body is exactly the controlled `U3` -/
+theorem cu3_ok (t p l : P) : LibGateOK α P libTable "CU3" [t, p, l] := by
+  refine ⟨_, .C (.U3 t p l), libMeaning_single2 rfl (apps_CU3 t p l) (gm_cu3 t p l), rfl, PhaseEq.of_eq h ?_⟩
+  simp only [wrap1_matU, wrap1_two, matU_diag h ha, cxM_eq]
+  simp only [matU_gen h ha, expi_zero h ha, ha2.q_cos, ha2.q_sin, ha2.nq_cos, ha2.nq_sin]
+  rw [I4_eq]
+  simp only [app2_target, app2_cx, app2_control]
+  rw [← I4_eq, app2_both]
+  show _ = Spec.ctrl (specMatrix (.U3 t p l))
+  rw [spec_U3 h, ctrl_two]
+  -- name the half-angle phases
+  have hI := h.I_mul_I
+  have hq := h.cos_sq_add_sin_sq (Amp.phalf α (Amp.phalf α t))
+  have hc := hh.cos_phalf_twice (Amp.phalf α t)
+  have hs := hh.sin_phalf_twice (Amp.phalf α t)
+  rw [h.cos_padd] at hc
+  rw [h.sin_padd] at hs
+  have hpp := h.cos_sq_add_sin_sq (Amp.phalf α p)
+  have hll := h.cos_sq_add_sin_sq (Amp.phalf α l)
+  have hcp := hh.cos_phalf_twice p
+  have hsp := hh.sin_phalf_twice p
+  rw [h.cos_padd] at hcp
+  rw [h.sin_padd] at hsp
+  have hcl := hh.cos_phalf_twice l
+  have hsl := hh.sin_phalf_twice l
+  rw [h.cos_padd] at hcl
+  rw [h.sin_padd] at hsl
+  simp only [OQ2.expi, ha.cos_neg, ha.sin_neg, ha2.add_cos, ha2.add_sin, ha2.sub_cos, ha2.sub_sin, h.cos_padd,
+    h.sin_padd, h.cos_pneg, h.sin_pneg]
+  refine bd2_ext ?_ ?_ ?_ ?_ ?_ ?_ ?_ ?_ <;> grind
+
+include hh in
+/-- the body of `cu1(λ)`, on both qubits in order, is `diag(1, 1, 1, e^{iλ})` -/
+theorem cu1_value (l : P) : ∃ m : LMat α, gateMatrix (α := α) defaultFuel "cu1" [l] = some m ∧
+    app2 [0, 1] m I4 = bd2 1 0 0 1 1 0 0 (Amp.cos l + Amp.I P * Amp.sin l) := by
+  refine ⟨_, gm_cu1 l, ?_⟩
+  simp only [wrap1_matU, wrap1_two, matU_diag h ha, cxM_eq]
+  rw [I4_eq]
+  simp only [app2_target, app2_cx, app2_control]
+  rw [← I4_eq, app2_both]
+  have hp := h.cos_sq_add_sin_sq (Amp.phalf α l)
+  have hI := h.I_mul_I
+  have hc := hh.cos_phalf_twice l
+  have hs := hh.sin_phalf_twice l
+  rw [h.cos_padd] at hc
+  rw [h.sin_padd] at hs
+  simp only [expi_neg h ha, expi_div_two h ha, ha.cos_div_two, ha.sin_div_two]
+  refine bd2_ext ?_ ?_ ?_ ?_ ?_ ?_ ?_ ?_ <;> grind
+
+omit h ha in
+theorem apps_CT : libApps (P := P) libTable "CT" [] =
+    some [("cu1", [Angle.div Angle.pi (Angle.ofDec 4 0)], [0, 1])] := by rfl
+omit h ha in
+theorem apps_CTdg : libApps (P := P) libTable "CTdg" [] =
+    some [("cu1", [Angle.div (Angle.neg Angle.pi) (Angle.ofDec 4 0)], [0, 1])] := by rfl
+
+include hh ha2 in
+/-- `CT` is exported as `cu1(pi/4)`: exactly the controlled `T` -/
+theorem ct_ok : LibGateOK α P libTable "CT" [] := by
+  obtain ⟨m, hm, hv⟩ := cu1_value h hh ha (Angle.div Angle.pi (Angle.ofDec 4 0) : P)
+  refine ⟨_, .C .T, libMeaning_single2 rfl apps_CT hm, rfl, PhaseEq.of_eq h ?_⟩
+  rw [hv]
+  show _ = Spec.ctrl (specMatrix (.T : GateTerm P))
+  simp only [specMatrix, ctrl_two, h.zeta8_eq, ha2.cos_pi_four, ha2.sin_pi_four]
+  refine bd2_ext rfl rfl rfl rfl rfl rfl rfl ?_
+  ring
+
+include hh ha2 in
+/-- `CTdg` is exported as `cu1(-pi/4)`: exactly the controlled `T†` -/
+theorem ctdg_ok : LibGateOK α P libTable "CTdg" [] := by
+  obtain ⟨m, hm, hv⟩ := cu1_value h hh ha (Angle.div (Angle.neg Angle.pi) (Angle.ofDec 4 0) : P)
+  refine ⟨_, .C .Tdg, libMeaning_single2 rfl apps_CTdg hm, rfl, PhaseEq.of_eq h ?_⟩
+  rw [hv]
+  show _ = Spec.ctrl (specMatrix (.Tdg : GateTerm P))
+  simp only [specMatrix, ctrl_two, h.zeta8_eq, ha2.cos_npi_four, ha2.sin_npi_four, h.conj_add, h.conj_mul,
+    h.conj_hsqrt2, h.conj_I]
+  refine bd2_ext rfl rfl rfl rfl rfl rfl rfl ?_
+  ring
 
 end lawful
 
